@@ -65,18 +65,19 @@ func (c *Cache[K, V]) Put(key K, val V) bool {
 		c.count--
 	}
 
-	// If necessary, evict items to make room.
-	newSize := c.size + valSize
-	for newSize > c.limit {
+	// If necessary, evict items to make room.  The test is written without
+	// adding the sizes, since c.size + valSize can overflow for limits near
+	// the maximum int (valSize <= c.limit was checked above).
+	for c.size > c.limit-valSize {
 		ek, ev := c.store.Evict()
 		c.onEvict(ek, ev)
 		c.count--
-		newSize -= c.sizeOf(ev)
+		c.size -= c.sizeOf(ev)
 	}
 
 	// Now there is room.
 	c.store.Store(key, val)
-	c.size = newSize
+	c.size += valSize
 	c.count++
 	return true
 }
